@@ -8,7 +8,13 @@ wt = f"/tmp/seed_{pid}" if rnd == 1 else f"/tmp/seed{rnd}_{pid}"
 if not os.path.exists(wt):
     subprocess.run(["git", "-C", "/repo", "worktree", "add", "--detach", wt, "HEAD"], check=True, capture_output=True)
 p = [json.loads(l) for l in open("/verif/properties.jsonl") if json.loads(l)["id"] == pid][0]
-extra = "" if rnd == 1 else " Avoid the most obvious one-token slip in the main function of the most relevant file: look instead at base classes, helper/utility functions and static helpers shared by these code paths, rarely used constructor options and their defaults (falsy values such as 0, None handling), state that is cached or carried across calls or across instances, the order of two operations, boundary values (empty, one element, exactly equal), and the interplay of two files."
+EXTRA3 = (" This is a late round: single-site slips in the obvious places, falsy-default slips (seed=0, `or`), stale per-instance caches, "
+          "lost set_rng/worker_init forwarding and wrong-variable offsets have all been tried already. Go for changes whose effect depends on the "
+          "COMBINATION of two or more features or options that are each fine alone, on a SEQUENCE of three or more API calls, on aliasing / "
+          "in-place mutation of an object handed in or out (lists, tensors, dicts, numpy arrays, context dicts), on numeric edge cases (rounding, "
+          "int vs float, dtype, ties), on inheritance (a subclass that relies on a base-class method you change slightly), or on the order in which "
+          "two independent components are constructed or called. Read the code paths of the less prominent files among the relevant sources too.")
+extra = "" if rnd == 1 else EXTRA3 if rnd >= 3 else " Avoid the most obvious one-token slip in the main function of the most relevant file: look instead at base classes, helper/utility functions and static helpers shared by these code paths, rarely used constructor options and their defaults (falsy values such as 0, None handling), state that is cached or carried across calls or across instances, the order of two operations, boundary values (empty, one element, exactly equal), and the interplay of two files."
 print(f"""You are helping to evaluate a verification effort by playing the role of a developer who introduces a subtle regression.
 
 Workspace: a scratch git worktree of the Python library BenediktAlkin/KappaData (PyTorch dataset utilities, package `kappadata`) at {wt}. Work ONLY inside {wt}. Never modify or read anything under /repo or /verif. Run Python as `/venv/bin/python` with your current directory set to {wt} (so that the worktree's copy of `kappadata` is the one imported; verify once with `cd {wt} && /venv/bin/python -c "import kappadata; print(kappadata.__file__)"` - it must print a path under {wt}; if it does not, prefix commands with `PYTHONPATH={wt}`). There is no network.
